@@ -1,9 +1,11 @@
 ---------------------------- MODULE MC_Sessions ----------------------------
 (* Model-checking instance of Sessions: 5 client sockets from 2 addresses, 2 clusters. *)
-EXTENDS Sessions
+EXTENDS Sessions, IOUtils
 
 MC_IpOf == [s \in Socks |-> IF s % 2 = 1 THEN "i1" ELSE "i2"]
 \* c1 inherits the global per-IP limit, c2 overrides it
 MC_IpOf1 == [s \in Socks |-> "i1"]
 MC_Override == [c \in Clusters |-> IF c = "c2" THEN OverrideC2 ELSE -1]
+\* generator steering: the step names of the scenario, one JSON string per line of the file named by $C16_SCRIPT
+MC_Script == ndJsonDeserialize(IOEnv.C16_SCRIPT)
 =============================================================================
